@@ -72,6 +72,8 @@ def validator_expectations(lines, obs):
             dsets[t[1]] = [dims[x] for x in t[2:]]
         elif t[0] in ("full", "arr") and ob.startswith("ok") and t[2] in dsets:
             arrd[t[1]] = dsets[t[2]]
+        elif t[0] == "sarr" and ob.startswith("ok") and t[3] in dsets:
+            arrd[t[2]] = dsets[t[3]]
         elif t[0] == "mkstock" and t[1] in dsets:
             own = dsets[t[1]]
             ok = bool(own) and own[0].split(":")[1] == t[2]
@@ -143,6 +145,19 @@ def check_C13(lines, obs):
             if len(t) > 1 and t[1].startswith("$") and t[1] in after and t[1] not in before and t[0] not in INPLACE:
                 return fail(ln, "a refused call leaves no new array behind", "no " + t[1], f"{t[1]}={after[t[1]]}")
         t_ = ln.split(" ")
+        if op in ("setitem", "getitem"):
+            src = t_[1] if op == "setitem" else (t_[2] if len(t_) > 2 else None)
+            key = t_[2] if op == "setitem" else (t_[3] if len(t_) > 3 else "")
+            if src in before and key.startswith("K:") and ob != "err":
+                import re as _re
+                known = set()
+                for m_ in _re.finditer(r"D:([^:]+):([^:]+):", before[src]):
+                    known.add(m_.group(1)); known.add(m_.group(2))
+                for kv_ in [x for x in key[2:].split(";") if x]:
+                    k_ = kv_.split("=", 1)[0]
+                    if k_ not in known:
+                        return fail(ln, "a key naming a dimension the array does not have is refused (nothing is read or written)",
+                                    "err", ob[:200])
         if (op == "setitem" and len(t_) == 4 and t_[2] == "E" and t_[3].startswith("n:") and t_[1] in before and ob == "err"):
             return fail(ln, "a well-formed array (values of the shape of its dimensions) can be assigned a number as a whole",
                         "ok", f"err; {t_[1]}={before[t_[1]]}")
